@@ -33,17 +33,20 @@ FEATURES = "std,help,usage,error-context,wrap_help,env"
 HT = "help_template::<impl at clap_builder/src/output/help_template.rs"
 
 
-def dump_mir():
+CRATE_FEATURES = {"clap_builder": ["--no-default-features", "--features", FEATURES], "clap_complete": ["--features", "unstable-dynamic"]}
+
+
+def dump_mir(crate="clap_builder"):
     tdir = os.path.join(SCRATCH, "mir-target-%d" % os.getpid())
-    out = os.path.join(SCRATCH, "mir-%d.txt" % os.getpid())
+    out = os.path.join(SCRATCH, "mir-%d-%s.txt" % (os.getpid(), crate))
     os.makedirs(SCRATCH, exist_ok=True)
     env = dict(os.environ, CARGO_NET_OFFLINE="true", CARGO_TARGET_DIR=tdir)
     env.pop("RUSTFLAGS", None)
-    cmd = ["cargo", "+nightly", "rustc", "--lib", "--offline", "--no-default-features", "--features", FEATURES, "--",
+    cmd = ["cargo", "+nightly", "rustc", "--lib", "--offline"] + CRATE_FEATURES[crate] + ["--",
            "-Zunpretty=mir", "-C", "debug-assertions=off", "-C", "overflow-checks=on"]
     t0 = time.time()
     with open(out, "w") as f:
-        p = subprocess.run(cmd, cwd=os.path.join(REPO, "clap_builder"), env=env, stdout=f, stderr=subprocess.PIPE, text=True)
+        p = subprocess.run(cmd, cwd=os.path.join(REPO, crate), env=env, stdout=f, stderr=subprocess.PIPE, text=True)
     shutil.rmtree(tdir, ignore_errors=True)
     if p.returncode != 0 or os.path.getsize(out) < 1000:
         raise RuntimeError("MIR dump failed:\n" + p.stderr[-2000:])
@@ -257,9 +260,16 @@ def run(pid, tier, seed, a):
     evidence = {"property_id": pid, "tier": tier, "seed": seed, "level": "model_checking", "coverage": {}, "assumptions": [], "wall_s": 0, "violations": 0}
     built = []
     try:
-        path, cmd, dump_s = dump_mir()
-        fns, consts = mir.load(path)
+        loaded = {}
+        cmd, dump_s = "", 0.0
         for label, f in units_for(pid):
+            crate = getattr(f, "crate", "clap_builder")
+            if crate not in loaded:
+                path, c, d = dump_mir(crate)
+                loaded[crate] = mir.load(path)
+                cmd = (cmd + " ; " if cmd else "") + f"(in {crate}) " + c
+                dump_s += d
+            fns, consts = loaded[crate]
             ctx, obligations, encoded, con = f(fns, consts)
             built.append((label, ctx, obligations, encoded, con))
     except (Unsupported, RuntimeError) as e:
@@ -314,7 +324,9 @@ def run(pid, tier, seed, a):
             else:
                 bad.append((ob, verdicts))
         for ob, q, s in sat_obs:
-            if ob["kind"] == "spec":
+            if ob["target"] == "complete_iteration":
+                rp = replay_c18(pid, ctx, ob, q, solver, a)
+            elif ob["kind"] == "spec":
                 rp = replay_spec(pid, ctx, ob, q, solver, a)
             else:
                 rp = replay_candidate(pid, ctx, ob, q, solver, a)
@@ -478,6 +490,49 @@ def replay_spec(pid, ctx, ob, q, solver, a):
         f.write("# native realisation through the public API (harness/native_spec.rs):\n" + "\n".join(lines) + "\n")
         f.write("# re-run: cd /repo/clap_builder && RUSTFLAGS='--cfg clap_verif' CLAP_VERIF_DIR=/verif/harness VERIF_SPEC_TARGET=" + ob["target"] +
                 " cargo test --lib --no-default-features --features std,help,usage,error-context verif_harness::native_spec -- --nocapture\n")
+    return res
+
+
+def replay_c18(pid, ctx, ob, q, solver, a):
+    """C18 candidates are realised by /verif/native/c18: command shapes x argv x cursor indices through
+    the public clap_complete::engine::complete; any native panic reproduces a reachable panic edge."""
+    out_dir = os.path.join(os.environ.get("VERIF_REPLAY_DIR", os.path.join(VERIF, "replays")), pid)
+    os.makedirs(out_dir, exist_ok=True)
+    path = os.path.join(out_dir, "complete_iteration.txt")
+    r = solver.ask(q, want_model=True)
+    model = {k[-60:]: v for k, v in parse_model(r["z3"][1], ctx).items()}
+    if "c18" not in _NATIVE_CACHE:
+        src = os.path.join(SCRATCH, "c18-native-%d" % os.getpid())
+        shutil.rmtree(src, ignore_errors=True)
+        shutil.copytree(os.path.join(VERIF, "native", "c18"), src)
+        if REPO != "/repo":
+            t = open(os.path.join(src, "Cargo.toml")).read().replace('"/repo/clap_complete"', '"%s/clap_complete"' % REPO).replace('path = "/repo"', 'path = "%s"' % REPO)
+            open(os.path.join(src, "Cargo.toml"), "w").write(t)
+        env = dict(os.environ, CARGO_NET_OFFLINE="true", CARGO_TARGET_DIR=os.path.join(src, "target"))
+        env.pop("RUSTFLAGS", None)
+        lines = []
+        for prof in ([], ["--release"]):
+            try:
+                p = subprocess.run(["cargo", "run", "--offline", "-q"] + prof, cwd=src, env=env, capture_output=True, text=True, timeout=1800)
+                out = p.stdout + p.stderr
+            except subprocess.TimeoutExpired:
+                out = "timeout"
+            got = re.findall(r"C18-REPLAY .*", out)
+            if not any("C18-REPLAY DONE" in g for g in got):
+                got.append("C18-REPLAY NATIVE RUN DID NOT COMPLETE: " + out[-300:].replace("\n", " "))
+            lines += [("release: " if prof else "dev: ") + g for g in got]
+        shutil.rmtree(src, ignore_errors=True)
+        _NATIVE_CACHE["c18"] = lines
+    lines = _NATIVE_CACHE["c18"]
+    panics = [l for l in lines if "C18-REPLAY PANIC" in l]
+    # a panic edge inside helper X is reproduced by a native panic raised in that helper's message / location
+    want = "This branch won't be hit" if "parse_positional" in ob["msg"] else ("else branch is only reachable" if "complete:" in ob["msg"] else "")
+    hit = [l for l in panics if (want in l if want else True)] if ob["kind"] == "panic" else [l for l in panics if "overflow" in l]
+    res = {"reproduced": bool(hit), "path": path, "model": model, "member": hit[0] if hit else None,
+           "note": "" if hit else f"native family: {len(panics)} panics, none matching this edge; " + "; ".join(l for l in lines if "DONE" in l or "NOT COMPLETE" in l)[:200]}
+    with open(path, "w") as f:
+        f.write(f"# C18: reachable {ob['kind']} edge in one iteration of clap_complete::engine::complete: {ob['msg']}\n# SMT model (tail of keys): {json.dumps(model)}\n")
+        f.write("# native family (/verif/native/c18, cargo run): first panics\n" + "\n".join(panics[:20]) + "\n" + "\n".join(l for l in lines if "DONE" in l) + "\n")
     return res
 
 
